@@ -358,6 +358,29 @@ def root_resolution(tree):
     return True
 
 
+APL_PINNED = ['n = len(target_path)', 'assert common_path[:n] == target_path', 'if n == len(target_path):\n    return diff',
+              'remainder_path = tuple(reversed(common_path[n:]))', 'newdiff = []',
+              'for d in diff:\n    nd = d\n    assert nd is not None\n    for key in remainder_path:\n        nd = op_patch(key, nd)\n    newdiff.append(nd)',
+              'return newdiff']
+APL_FIXED = ['n = len(target_path)', 'assert common_path[:n] == target_path', 'if not diff:\n    return []', 'if n == len(common_path):\n    return diff',
+             'remainder_path = tuple(reversed(common_path[n:]))', 'newdiff = []',
+             'for d in diff:\n    nd = d\n    assert nd is not None\n    for key in remainder_path:\n        nd = op_patch(key, [nd])\n    newdiff.append(nd)',
+             'return newdiff']
+COLLECT_DIFFS = ['local_diff = []', 'remote_diff = []',
+                 'for d in decisions:\n    ld = adjust_patch_level(path, d.common_path, d.local_diff)\n    rd = adjust_patch_level(path, d.common_path, d.remote_diff)\n    local_diff.extend(ld)\n    remote_diff.extend(rd)',
+                 'local_diff = combine_patches(local_diff)', 'remote_diff = combine_patches(remote_diff)', 'return (local_diff, remote_diff)']
+
+
+def apl_variant(tree):
+    """adjust_patch_level has one of two known bodies (as pinned / as repaired by notes/C03-fix-2.diff); collect_diffs as pinned"""
+    body = [ast.unparse(st) for st in strip_doc(fdef(tree, 'adjust_patch_level').body)]
+    cd = [ast.unparse(st) for st in strip_doc(fdef(tree, 'collect_diffs').body)]
+    if cd != COLLECT_DIFFS: fail('collect_diffs has an unrecognised body')
+    if body == APL_PINNED: return 'APLPinned'
+    if body == APL_FIXED: return 'APLFixed'
+    fail('adjust_patch_level has an unrecognised body')
+
+
 def countering(tree):
     for st in tree.body:
         if isinstance(st, ast.Assign) and len(st.targets) == 1 and isinstance(st.targets[0], ast.Name) and st.targets[0].id == 'countering_strategies':
@@ -491,6 +514,7 @@ def main():
     L.append('Definition src_tryresolve : dispatcher_src :=\n  %s.' % tryresolve(dtree))
     for nm in ('resolve_strategy_generic', 'resolve_conflicted_decisions_list', 'resolve_conflicted_decisions_dict', 'resolve_conflicted_decisions_strings'):
         L.append('Definition src_%s : dispatcher_src :=\n  %s.' % (nm, resolver(stree, nm)))
+    L.append('Definition adjust_patch_level_variant : apl_variant := %s.' % apl_variant(stree))
     L.append('Definition src_merge_strings_switch : list (pystr * string_switch) := %s.' % merge_strings_switch(gtree))
     L.append('Definition src_merge_lists_pr_arm : list (pystr * pystr) := %s.' % merge_lists_pr_arm(gtree))
     L.append('')
